@@ -137,7 +137,9 @@ def handleConvS (strict : Bool) (op : String) (args impl : List String) : Verdic
                 | _ => false     -- WRITEERR / REOPENERR: the conversion must succeed
               -- correspondence: the operations composed in the model vs. the library; then the property
               if m == i then (if specAll then .agree else .disagree false "ops-agree; conversion predicate fails")
-              else .disagree specAll s!"model-ops-view-differs"
+              -- "the result then matching the operations' specifications composed" is a clause of C07: the model's
+              -- composition equals the composed specifications (C09-C15 theorems), so a difference here fails the property
+              else .disagree false s!"the operations' result differs from the composed specifications (specAll={specAll})"
     | _ => .bad "conv.pair impl"
   | "conv.cli", cmd :: flags =>
     -- flags of the fixed little command lines of the stream
